@@ -17,9 +17,12 @@ Record mtree := mkTree {
 
 Record changeset := mkCs {
   cs_length : N; cs_ancestors : N; cs_byte_length : N; cs_batch_length : N; cs_fork : N;
-  cs_roots : list node; cs_nodes : list node;
+  cs_roots : list node; cs_rnodes : list node (* newest first *);
   cs_hash : option bytes; cs_signature : option bytes; cs_upgraded : bool;
   cs_orig_length : N; cs_orig_fork : N }.
+
+(* nodes of the changeset in the order they were pushed *)
+Definition cs_nodes (c : changeset) : list node := rev_append (cs_rnodes c) [].
 
 Definition node_from_bytes (index : N) (data : bytes) : node :=
   mkNode index (le_val (firstn 8 data)) (skipn 8 data).
@@ -132,16 +135,16 @@ Section WithCrypto.
   Definition append_root (c : changeset) (n : node) (it : fiter) : res (changeset * fiter) :=
     bl <- add64 "byte_length += node.length" (cs_byte_length c) (n_length n) ;;
     '(rr, nr, it') <- merge_roots (S (length (cs_roots c))) (n :: rev (cs_roots c))
-                        (n :: rev (cs_nodes c)) it ;;
+                        (n :: cs_rnodes c) it ;;
     Ok (mkCs (cs_length c + it_factor it / 2) (cs_ancestors c) bl (cs_batch_length c) (cs_fork c)
-             (rev rr) (rev nr) (cs_hash c) (cs_signature c) true (cs_orig_length c) (cs_orig_fork c),
+             (rev rr) nr (cs_hash c) (cs_signature c) true (cs_orig_length c) (cs_orig_fork c),
         it').
 
   Definition cs_append (c : changeset) (data : bytes) : res changeset :=
     let head := cs_length c * 2 in
     '(c', _) <- append_root c (block_node cr head data) (it_new head) ;;
     Ok (mkCs (cs_length c') (cs_ancestors c') (cs_byte_length c') (cs_batch_length c' + 1)
-             (cs_fork c') (cs_roots c') (cs_nodes c') (cs_hash c') (cs_signature c')
+             (cs_fork c') (cs_roots c') (cs_rnodes c') (cs_hash c') (cs_signature c')
              (cs_upgraded c') (cs_orig_length c') (cs_orig_fork c')).
 
   Definition cs_tree_hash (c : changeset) : bytes := tree_hash cr (cs_roots c).
@@ -150,7 +153,7 @@ Section WithCrypto.
 
   Definition cs_set_hash_sig (c : changeset) (h : bytes) (s : bytes) : changeset :=
     mkCs (cs_length c) (cs_ancestors c) (cs_byte_length c) (cs_batch_length c) (cs_fork c)
-         (cs_roots c) (cs_nodes c) (Some h) (Some s) (cs_upgraded c) (cs_orig_length c)
+         (cs_roots c) (cs_rnodes c) (Some h) (Some s) (cs_upgraded c) (cs_orig_length c)
          (cs_orig_fork c).
 
   Definition cs_hash_and_sign (c : changeset) (sk : bytes) : changeset :=
@@ -566,7 +569,7 @@ Section WithCrypto.
 
   Definition cs_push_nodes (c : changeset) (l : list node) : changeset :=
     mkCs (cs_length c) (cs_ancestors c) (cs_byte_length c) (cs_batch_length c) (cs_fork c)
-         (cs_roots c) (cs_nodes c ++ l) (cs_hash c) (cs_signature c) (cs_upgraded c)
+         (cs_roots c) (rev_append l (cs_rnodes c)) (cs_hash c) (cs_signature c) (cs_upgraded c)
          (cs_orig_length c) (cs_orig_fork c).
 
   (* climb: consume the queue, hashing upwards; returns the computed root and the visited nodes *)
@@ -700,7 +703,7 @@ Section WithCrypto.
 
   Definition cs_set_fork (c : changeset) (fork : N) : changeset :=
     mkCs (cs_length c) (cs_ancestors c) (cs_byte_length c) (cs_batch_length c) fork
-         (cs_roots c) (cs_nodes c) (cs_hash c) (cs_signature c) (cs_upgraded c)
+         (cs_roots c) (cs_rnodes c) (cs_hash c) (cs_signature c) (cs_upgraded c)
          (cs_orig_length c) (cs_orig_fork c).
 
   (* returns (block root was consumed by the upgrade, changeset) *)
